@@ -438,6 +438,11 @@ def translate_jobstate(repo):
     CURFILE[0] = path
     tree = ast.parse(open(path).read())
     templates = {"get_pending_timer": ("py_pending_index", ["list:pytimer"], "index:__timers")}
+    # BaseJob.__lt__ (the order of the table rows and of sorted(jobs)): due instants compared as datetimes
+    lt = M.find_method(tree, "BaseJob", "__lt__")
+    if [a.arg for a in lt.args.args] != ["self", "other"] or \
+            [ast.unparse(b) for b in lt.body if not (isinstance(b, ast.Expr) and isinstance(b.value, ast.Constant))] != ["return self.datetime < other.datetime"]:
+        fail(lt, "BaseJob.__lt__ differs from the template the translator knows")
     out = []
     for meth, name in (("has_attempts_remaining", "has_attempts_remaining"), ("_calc_next_exec", "job_calc_next_exec"),
                        ("timedelta", "job_timedelta"), ("datetime", "job_datetime")):
